@@ -40,6 +40,9 @@ DIRECTED = [
     "flow f\n  match E1()\n  send Out1()\n\nflow g\n  match E2()\n  abort\n\nflow main\n  while True\n    when f\n      send Out2()\n    or when g\n      send Out3()\n    else\n      send Out1()\n    match E3()\n",
     "flow a\n  start A1Action(x=1) as $r\n  match E1()\n  send Out1()\n\nflow b\n  start A1Action(x=1)\n  match E2()\n\nflow main\n  start a\n  start b\n  match E3()\n  await a\n  match Never()\n",
     "flow z\n  match E1()\n  start_new_flow_instance:\n  match E2()\n  send Out1()\n\nflow main\n  activate z\n  match E3()\n  send Out2()\n  match Never()\n",
+    # an action that lives in the scope of an or-group: stopped when the group is left, its Started may still arrive later
+    "flow f\n  match E1()\n\nflow o\n  await f or A1Action(x=1)\n  match E2()\n  send Out1()\n\nflow main\n  start o\n  match E3()\n  match Never()\n",
+    "flow o\n  when A1Action(x=1)\n    send Out1()\n  or when E1()\n    send Out2()\n  match E2()\n\nflow main\n  activate o\n  match E3()\n  match Never()\n",
     "flow c\n  match E1()\n\nflow p\n  start c\n  match E2()\n\nflow main\n  start p as $p\n  match $p.Finished()\n  send Out1()\n  start p\n  match E3()\n  send Out2()\n  match Never()\n",
 ]
 
